@@ -883,6 +883,11 @@ func (c *Ctx) evalCall(e *Expr) Val {
 		s0 := c.eval(e.Kids[0])
 		x := c.eval(e.Kids[1])
 		return scalar("(store "+s0.T+" "+x.T+" false)", s0.Sort, nil)
+	case "ifbv", "ifint": // clause that only makes sense in one arithmetic mode (true in the other)
+		if (e.S == "ifbv") != fe.S.BV {
+			return scalar("true", SBool, types.Typ[types.Bool])
+		}
+		return c.eval(e.Kids[0])
 	case "int": // integer value of a bit-vector/int term
 		x := c.eval(e.Kids[0])
 		return scalar(c.intTerm(x), SInt, types.Typ[types.Int])
